@@ -387,6 +387,11 @@ func runHistory(t *testing.T, p ifParams, h []string, expect map[string]string, 
 		for i, s := range h {
 			res, err := d.step(s)
 			if err != nil {
+				if div != nil && strings.HasPrefix(s, "R") {
+					// the run has already left the model (a send the model accepts was refused): the caller has no such
+					// request to poll; what was executed so far is judged as it stands
+					break
+				}
 				t.Fatalf("history %v: %v", h, err)
 			}
 			obs := d.project()
